@@ -172,6 +172,10 @@ type EncapDecl struct {
 	Owners []string
 }
 
+// GlobalFact: `globalfact pkg.Var pred`: the ghost predicate holds of the value of that
+// package-level variable whenever it is read (TRUSTED; for variables of other packages).
+type GlobalFact struct{ Var, Pred string }
+
 type SpecFile struct {
 	Path    string
 	Pures   []*PureFunc
@@ -182,6 +186,7 @@ type SpecFile struct {
 	Immut   []string // immutable T.f declarations ("T.f")
 	Regexes []*RegexDecl
 	Encaps  []*EncapDecl
+	GFacts  []*GlobalFact
 	RawText string
 }
 
@@ -319,7 +324,7 @@ var clauseKeywords = map[string]bool{
 	"requires": true, "ensures": true, "establishes": true, "modifies": true, "loop": true, "at": true,
 	"property": true, "nopanic": true, "reveal": true, "pure": true, "func": true,
 	"ghost": true, "lemma": true, "axiom": true, "extern": true, "fresh": true,
-	"maypanic": true, "regex": true, "objinvariant": true, "entryfact": true, "encapsulated": true, "inline": true, "boundary": true, "immutable": true, "bounded": true, "opaque": true, "pathflag": true,
+	"maypanic": true, "regex": true, "globalfact": true, "objinvariant": true, "entryfact": true, "encapsulated": true, "inline": true, "boundary": true, "immutable": true, "bounded": true, "opaque": true, "pathflag": true,
 }
 
 func (p *parser) parseExpr(minPrec int) (Expr, error) {
@@ -746,6 +751,14 @@ func (p *parser) parseFile() (*SpecFile, error) {
 				return nil, err
 			}
 			sf.Immut = append(sf.Immut, tn+"."+p.next().s)
+		case "globalfact":
+			p.next()
+			pk := p.next().s
+			if err := p.expectOp("."); err != nil {
+				return nil, err
+			}
+			vn := p.next().s
+			sf.GFacts = append(sf.GFacts, &GlobalFact{Var: pk + "." + vn, Pred: p.next().s})
 		case "encapsulated":
 			p.next()
 			ed := &EncapDecl{}
